@@ -13,6 +13,7 @@ AST (tuples):
                ('struct', path, [(field, e)..]) ('closure', [pat..], body) ('block', [stmt..], tail|None)
                ('match', scrut, [(pats, guard|None, body)..]) ('if', cond, then, else|None) ('iflet', pat, e, then, else|None)
                ('macro', name, token-list) ('for', pat, iter, body) ('loop', body) ('return', e|None) ('assign', lhs, rhs)
+               ('while', cond, body) ('whilelet', pat, e, body)      (`a += b` is read as ('assign', a, ('binop', '+', a, b)))
   statements   ('let', pat, e) ('expr', e)            (an expression statement; `e` may be an ('assign'..))
   patterns     ('pwild',) ('pbind', name) ('ppath', path) ('ptuplestruct', path, [p..]) ('pstruct', path, [(field, p)..], has_rest)
                ('ptuple', [p..]) ('pslice', [p..]) ('plit', kind, text) ('pref', p) ('prest',)
@@ -45,7 +46,7 @@ def tokenize(src):
 BINPREC = [('||',), ('&&',), ('==', '!=', '<', '>', '<=', '>='), ('|',), ('^',), ('&',), ('+', '-'), ('*', '/', '%')]
 
 class P:
-    def __init__(self, toks): self.t = toks; self.i = 0
+    def __init__(self, toks): self.t = toks; self.i = 0; self.let_types = {}
     def peek(self, k=0): return self.t[self.i + k] if self.i + k < len(self.t) else ('eof', '')
     def at(self, v, k=0): return self.peek(k)[1] == v and self.peek(k)[0] in ('op', 'id')
     def eat(self, v):
@@ -185,21 +186,26 @@ class P:
             if self.accept(';'): continue
             if self.at('let'):
                 self.i += 1; pat = self.pattern()
-                if self.accept(':'): self.type_text()
+                if self.accept(':'):
+                    ty = self.type_text()
+                    if pat[0] == 'pbind': self.let_types[pat[1]] = ty
                 self.eat('='); e = self.expr(); self.eat(';'); stmts.append(('let', pat, e)); continue
             e = self.expr_stmt()
             if self.accept(';'): stmts.append(('expr', e))
             elif self.at('}'): tail = e
-            elif e[0] in ('match', 'if', 'iflet', 'for', 'loop', 'block'): stmts.append(('expr', e))
+            elif e[0] in ('match', 'if', 'iflet', 'for', 'loop', 'block', 'while', 'whilelet'): stmts.append(('expr', e))
             else: raise Unrecognised(f'expected ; or }} after expression, found {self.peek()[1]!r}')
         self.eat('}')
         return ('block', stmts, tail)
     def expr_stmt(self):
-        if self.at('{') or (self.peek()[0] == 'id' and self.peek()[1] in ('match', 'if', 'for', 'loop')):
+        if self.at('{') or (self.peek()[0] == 'id' and self.peek()[1] in ('match', 'if', 'for', 'loop', 'while')):
             return self.primary(False)            # block-like expression in statement / arm position: no postfix continuation
         e = self.expr()
         if self.at('=') :
             self.i += 1; return ('assign', e, self.expr())
+        for cop in ('+=', '-=', '*=', '/='):
+            if self.at(cop):
+                self.i += 1; return ('assign', e, ('binop', cop[0], e, self.expr()))
         return e
     def primary(self, nostruct):
         k, v = self.peek()
@@ -248,6 +254,11 @@ class P:
         if v == 'for':
             self.i += 1; pat = self.pattern(); self.eat('in'); it = self.expr(nostruct=True); return ('for', pat, it, self.block())
         if v == 'loop': self.i += 1; return ('loop', self.block())
+        if v == 'while':
+            self.i += 1
+            if self.accept('let'):
+                pat = self.pattern(); self.eat('='); e = self.expr(nostruct=True); return ('whilelet', pat, e, self.block())
+            c = self.expr(nostruct=True); return ('while', c, self.block())
         if v == 'return':
             self.i += 1
             return ('return', None if self.at(';') or self.at('}') else self.expr())
@@ -307,7 +318,8 @@ def find_fn(src, name, after=None):
             if p.accept('->'): ret = p.type_text()
             if p.at('where'):
                 while not p.at('{'): p.i += 1
-            return dict(name=name, params=params, ret=ret, body=p.block())
+            body = p.block()
+            return dict(name=name, params=params, ret=ret, body=body, let_types=p.let_types)
     raise Unrecognised(f'fn {name} not found')
 
 def find_const(src, name):
